@@ -244,7 +244,11 @@ func (r *renderer) emit(depth int, s string) {
 }
 
 func (r *renderer) catches(cs []Catch, depth int) {
-	for _, c := range cs {
+	for i, c := range cs {
+		// 拦截 statements are separated like other statements: a ； may stand between two of them
+		if i > 0 && r.l.Semis && r.l.coin() {
+			r.emit(depth, r.l.p("；", ";"))
+		}
 		r.emit(depth, "拦截"+c.Class+r.l.p("：", ":"))
 		r.block(c.Body, depth+1)
 	}
